@@ -17,6 +17,8 @@ import (
 	"strconv"
 	"strings"
 
+	"github.com/ryogrid/SamehadaDB/lib/execution/expression"
+	"github.com/ryogrid/SamehadaDB/lib/execution/plans"
 	"github.com/ryogrid/SamehadaDB/lib/storage/access"
 	"github.com/ryogrid/SamehadaDB/lib/types"
 
@@ -67,7 +69,9 @@ func NewWorld(cfg *WorldCfg) *World {
 	w.db = db
 	for _, t := range cfg.SeedCreate {
 		td := cfg.Defs[t]
-		w.db.MustAuto(td.CreateSQL())
+		if f := w.db.CreateTable(td); f != nil {
+			panic("seed create: " + f.String())
+		}
 		w.model.Create(td)
 	}
 	for _, s := range cfg.SeedStmts {
@@ -129,12 +133,8 @@ func (w *World) apply(op string) *core.Violation {
 	switch parts[0] {
 	case "create":
 		td := w.cfg.Defs[parts[1]]
-		r := w.db.Auto(td.CreateSQL())
-		if r.Fail != nil {
-			return failed(r.Fail)
-		}
-		if r.Err != "" || r.Aborted {
-			return w.viol("create-refused", op, fmt.Sprintf("CREATE TABLE refused: %s aborted=%v", r.Err, r.Aborted))
+		if f := w.db.CreateTable(td); f != nil {
+			return failed(f)
 		}
 		w.model.Create(td)
 	case "begin":
@@ -317,14 +317,25 @@ func (w *World) Answers(domain func(td *TableDef, col ColDef) []any, ranges bool
 		td := &w.model.Tables[name].Def
 		var qs []*Stmt
 		qs = append(qs, &Stmt{Kind: "select", Table: name, Cols: []string{"*"}})
-		for _, c := range td.Cols {
+		for ci, c := range td.Cols {
 			dom := domain(td, c)
+			hash := td.Idx != nil && td.Idx[ci] == "hash"
 			for _, k := range dom {
 				p := Leaf{c.Name, "=", k}
+				if hash {
+					// a hash index is only reachable through the plan API (the optimizer builds range scans)
+					rows, v := w.PointIndex(name, c.Name, k)
+					if v != nil {
+						return nil, v
+					}
+					out[fmt.Sprintf("HASH-INDEX LOOKUP %s.%s = %v", name, c.Name, k)] = rows.Canon()
+					qs = append(qs, &Stmt{Kind: "select", Table: name, Cols: []string{"*"}, Where: ForceScan(p)})
+					continue
+				}
 				qs = append(qs, &Stmt{Kind: "select", Table: name, Cols: []string{"*"}, Where: p},
 					&Stmt{Kind: "select", Table: name, Cols: []string{"*"}, Where: ForceScan(p)})
 			}
-			if ranges {
+			if ranges && !hash {
 				for i := range dom {
 					for j := i; j < len(dom); j++ {
 						qs = append(qs, &Stmt{Kind: "select", Table: name, Cols: []string{"*"}, Where: And{Leaf{c.Name, ">=", dom[i]}, Leaf{c.Name, "<=", dom[j]}}})
@@ -341,6 +352,44 @@ func (w *World) Answers(domain func(td *TableDef, col ColDef) []any, ranges bool
 		}
 	}
 	return out, nil
+}
+
+// PointIndex looks key up through the index of table.col with a PointScanWithIndex plan (plan API).
+func (w *World) PointIndex(table, col string, key any) (Rows, *core.Violation) {
+	var res StmtResult
+	t := w.db.Begin()
+	f := guard(func() {
+		cat := w.db.Cat()
+		tm := cat.GetTableByName(table)
+		sc := tm.Schema()
+		var v types.Value
+		switch x := key.(type) {
+		case int32:
+			v = types.NewInteger(x)
+		case float32:
+			v = types.NewFloat(x)
+		case string:
+			v = types.NewVarchar(x)
+		}
+		colVal := expression.MakeColumnValueExpression(sc, 0, table+"."+col)
+		cmp := expression.NewComparison(colVal, expression.NewConstantValue(v, v.ValueType()), expression.Equal, types.Boolean)
+		plan := plans.NewPointScanWithIndexPlanNode(cat, sc, cmp.(*expression.Comparison), tm.OID())
+		res = t.ExecPlan(plan)
+	})
+	if f == nil {
+		f = res.Fail
+	}
+	if f != nil {
+		return nil, w.viol("call-failed/"+f.Kind+"@"+f.Where, "battery", fmt.Sprintf("index lookup %s.%s = %v -> %s", table, col, key, f.String()))
+	}
+	if res.Aborted {
+		t.Abort()
+		return nil, w.viol("battery-aborted", "battery", fmt.Sprintf("index lookup %s.%s = %v was aborted although no other transaction is active", table, col, key))
+	}
+	if f := t.Commit(); f != nil {
+		return nil, w.viol("call-failed/"+f.Kind+"@"+f.Where, "battery", f.String())
+	}
+	return res.Rows, nil
 }
 
 // DiffAnswers returns the first query whose answer differs.
@@ -405,7 +454,37 @@ func (w *World) Volatile() string {
 	}
 	fmt.Fprintf(&sb, "reuse%s ", core.DumpV(core.Field(w.db.BPM(), "reUsablePageList")))
 	dm := w.db.inst().GetDiskManager()
-	fmt.Fprintf(&sb, "nextPid%s", core.DumpV(core.Field(dm, "nextPageID")))
+	fmt.Fprintf(&sb, "nextPid%s ", core.DumpV(core.Field(dm, "nextPageID")))
+	// the lock tables (a read leaves a shared lock behind that no other part of the key shows)
+	names := map[int64]string{}
+	for id, t := range w.txns {
+		names[int64(t.T.GetTransactionID())] = fmt.Sprintf("T%d", id)
+	}
+	lm := w.db.inst().GetLockManager()
+	var locks []string
+	for it := core.Field(lm, "sharedLockTable").MapRange(); it.Next(); {
+		var hs []string
+		for i := 0; i < it.Value().Len(); i++ {
+			if n, ok := names[it.Value().Index(i).Int()]; ok {
+				hs = append(hs, n)
+			} else {
+				hs = append(hs, "ended")
+			}
+		}
+		sort.Strings(hs)
+		if len(hs) > 0 {
+			locks = append(locks, fmt.Sprintf("S%d.%d=%s", it.Key().Field(0).Int(), it.Key().Field(1).Uint(), strings.Join(hs, ",")))
+		}
+	}
+	for it := core.Field(lm, "exclusiveLockTable").MapRange(); it.Next(); {
+		n, ok := names[it.Value().Int()]
+		if !ok {
+			n = "ended"
+		}
+		locks = append(locks, fmt.Sprintf("X%d.%d=%s", it.Key().Field(0).Int(), it.Key().Field(1).Uint(), n))
+	}
+	sort.Strings(locks)
+	sb.WriteString(strings.Join(locks, " "))
 	return sb.String()
 }
 
